@@ -1183,7 +1183,7 @@ Definition enc_class (c : run_class) : sx :=
 
 (* entry point:
    (run <failfast> <nosummary> (input…) (uni…) (pf…) (math…) <rand1 bits> (call…))
-   ↦ (result class status total fails (callres…) (effect…)) *)
+   ↦ (result class status total (failure-message…) (callres…) (effect…)) *)
 Definition builtins_case (x : sx) : sx :=
   match x with
   | Lst [Sym tag; ff; ns; Lst inputs; Lst uni; Lst pf; Lst mth; Int r1; Lst calls] =>
@@ -1193,7 +1193,7 @@ Definition builtins_case (x : sx) : sx :=
           let o := table_oracles uni' pf' mth' (float_of_bits r1) in
           let '(crs, effs, t, cls) := run_program o ff' ns' inputs' calls' in
           Lst [Sym (s_ "result"); enc_class cls; Int (cli_status cls);
-               sx_nat (t_total t); sx_nat (fail_count t);
+               sx_nat (t_total t); Lst (map Str (t_errors t));
                Lst (map (fun c => Lst [enc_outcome (c_out c); sx_bool (e_err (c_err c)); Str (e_msg (c_err c))]) crs);
                Lst (map enc_effect effs)]
       | _, _, _, _, _, _, _ => Sym (s_ "decode-error")
